@@ -5,7 +5,7 @@ import json, os, shutil, subprocess, sys, time
 from pathlib import Path
 
 ROOT = Path(__file__).resolve().parent.parent
-src = Path(sys.argv[1]); prop = sys.argv[2]; tier = sys.argv[3] if len(sys.argv) > 3 else "quick"
+src = Path(sys.argv[1]).resolve(); prop = sys.argv[2]; tier = sys.argv[3] if len(sys.argv) > 3 else "quick"
 name = src.name
 wt = f"/tmp/sv_{name}"
 subprocess.run(["git", "-C", "/repo", "worktree", "remove", "--force", wt], capture_output=True)
@@ -27,7 +27,7 @@ try:
         meta["demo_on_patched_tail"] = (d1.stdout + d1.stderr)[-400:]
         t0 = time.time()
         c = subprocess.run([str(ROOT / "check"), prop, "--tier", tier], cwd=ROOT, capture_output=True, text=True,
-                           env=dict(os.environ, VERIF_REPO=wt), timeout=3600)
+                           env=dict(os.environ, VERIF_REPO=wt, VERIF_EVIDENCE_DIR="/tmp/ev_seed"), timeout=3600)
         lines = [l for l in c.stdout.splitlines() if not l.startswith("KNOWN-FINDING")]
         meta["check_cmd"] = f"VERIF_REPO=<patched tree> ./check {prop} --tier {tier}"
         meta["check_rc"] = c.returncode
@@ -49,7 +49,7 @@ finally:
 out = ROOT / "seeded" / name
 out.mkdir(parents=True, exist_ok=True)
 for f in ("patch.diff", "demo.py", "notes.md"):
-    if (src / f).exists():
+    if (src / f).exists() and (src / f).resolve() != (out / f).resolve():
         shutil.copy(src / f, out / f)
 notes = (src / "notes.md").read_text() if (src / "notes.md").exists() else ""
 meta["needs_to_manifest"] = notes[:1200]
